@@ -684,3 +684,7 @@ for _pid in ('C06', 'C15'):
                             'newline before every schedule point of a three-pass window (3 lines x 3 scheduler states), '
                             'and whole streams of 1-8 lines fed by randomly placed interrupts (never nested: the ring has one producer) in bursts '
                             'of <= 15, and by a free-running input "thread" (coroutine, random/PCT schedules, one line outstanding); oracle: every complete line dispatched exactly once, in order, with its arguments.')
+
+# real-thread legs under ASan+UBSan (the TSan twins are C07's stages); thorough tier only
+PROPS['C04']['stages'].append(thr_stage('thr-asan', 'mq', 'asan', tiers=('thorough',)))
+PROPS['C06']['stages'].append(thr_stage('thr-asan', 'fibre', 'asan', tiers=('thorough',)))
